@@ -203,6 +203,32 @@ class Analyzer:
         self._dict_attrs[k] = names
         return names
 
+    def scalar_attrs(self, cls) -> Set[str]:
+        """Attributes of the class (and its ancestors) that are bound to a numeric / boolean / None constant somewhere: counters and flags.
+        `self.x += 1` on those rebinds an immutable number; on anything else an augmented assignment writes into the array in place."""
+        if cls is None:
+            return set()
+        if not hasattr(self, "_scalar_attrs"):
+            self._scalar_attrs = {}
+        k = (cls.module.name, cls.qualname)
+        if k in self._scalar_attrs:
+            return self._scalar_attrs[k]
+        names = set()
+        for c in self.index.mro(cls):
+            for nm, v in c.attrs.items():
+                if isinstance(v, ast.Constant) and isinstance(v.value, (int, float, bool)):
+                    names.add(nm)
+            for fi in c.methods.values():
+                for x in ast.walk(fi.node):
+                    if isinstance(x, ast.Assign) and isinstance(x.targets[0], ast.Attribute) and u(x.targets[0].value) == "self":
+                        v = x.value
+                        if isinstance(v, ast.UnaryOp) and isinstance(v.op, (ast.USub, ast.UAdd)):
+                            v = v.operand
+                        if isinstance(v, ast.Constant) and isinstance(v.value, (int, float, bool)) and v.value is not None:
+                            names.add(x.targets[0].attr)
+        self._scalar_attrs[k] = names
+        return names
+
     def _attr_type(self, cls, attr):
         """Class of self.<attr> when __init__ stores an annotated parameter there."""
         key = (cls.qualname, attr)
@@ -607,6 +633,8 @@ class _Ctx:
                     self._record(frozenset(x for x in cur if isinstance(x, tuple)), s, "augassign")
                     return st
                 if isinstance(base, ast.Name) and base.id == "self":
+                    if t.attr not in self.an.scalar_attrs(self.fi.cls):
+                        self._record(frozenset({("S", t.attr)}), s, "augassign")
                     return st
                 self._record(frozenset(x for x in self.prov(t, st, objs) if isinstance(x, tuple) and x[0] == "P"), s, "augassign")
                 return st
